@@ -170,3 +170,55 @@ Proof.
   destruct (vm_run_n fuel cs (vm0 ch)), (vm_run_n fuel cs' (vm0 ch)); cbn in H; try contradiction; cbn; auto.
   destruct H as (_ & Ht & _ & Hh & _). split; auto. apply Forall2_rev'. exact Hh.
 Qed.
+
+(* ================================================================================================================ *)
+(* the increment kernel (any nesting depth) *)
+Lemma aff_at_base : forall fs idx b d, aff_at (b + d) fs idx == aff_at b fs idx + d.
+Proof.
+  induction fs as [|f fs IH]; intros [|i idx] b d; cbn; try ring.
+  rewrite <- IH. apply (f_equal (fun x => x)) || idtac.
+  assert (E : b + d + f * inject_Z i == b + f * inject_Z i + d) by ring.
+  clear IH. revert E. generalize (b + d + f * inject_Z i) (b + f * inject_Z i + d). 
+  intros x y E. revert x y E idx. induction fs as [|g gs IH2]; intros x y E [|j idx]; cbn; auto.
+  apply IH2. rewrite E. reflexivity.
+Qed.
+
+Lemma aff_at_compat : forall fs idx x y, x == y -> aff_at x fs idx == aff_at y fs idx.
+Proof.
+  induction fs as [|g gs IH]; intros [|j idx] x y E; cbn; auto. apply IH. rewrite E. reflexivity.
+Qed.
+
+Lemma req_inc_loop_sound : forall olds news iolds inews,
+  levels_ok olds news iolds inews ->
+  forall fs inc0 inc b, length fs = length olds ->
+  req_inc_loop olds news fs inc0 = Ok inc ->
+  aff_at b fs iolds + inc == aff_at (b + inc0) fs inews.
+Proof.
+  induction 1 as [|o n io i_n os ns ios ins Hl Hls IH]; intros fs inc0 inc b Hlen Hreq.
+  - destruct fs; [|discriminate]. cbn in *. inversion Hreq; subst. reflexivity.
+  - destruct fs as [|f fs]; [discriminate|]. cbn in Hlen. injection Hlen as Hlen. cbn in Hreq. cbn [aff_at].
+    destruct Hl as [[-> ->]|[(-> & Hlt & ->)|(-> & Hlt & -> & ->)]].
+    + rewrite Z.eqb_refl in Hreq. rewrite (IH fs inc0 inc (b + f * inject_Z io) Hlen Hreq).
+      apply aff_at_compat. ring.
+    + assert (E : (0 =? n)%Z = false) by (apply Z.eqb_neq; lia). rewrite E in Hreq.
+      assert (E2 : (0 <? n)%Z = true) by (apply Z.ltb_lt; lia). rewrite E2 in Hreq. cbn in Hreq.
+      rewrite (IH fs (inc0 + f) inc (b + f * inject_Z io) Hlen Hreq).
+      apply aff_at_compat. rewrite inject_Z_plus. cbn. ring.
+    + assert (E : (o =? 0)%Z = false) by (apply Z.eqb_neq; lia). rewrite E in Hreq.
+      assert (E2 : (o <? 0)%Z = false) by (apply Z.ltb_ge; lia). rewrite E2 in Hreq. rewrite Z.eqb_refl in Hreq.
+      rewrite (IH fs (inc0 - f * inject_Z o) inc (b + f * inject_Z o) Hlen Hreq).
+      apply aff_at_compat. cbn. ring.
+Qed.
+
+Lemma required_increment_sound : forall b_old b_new olds news iolds inews fs inc,
+  levels_ok olds news iolds inews ->
+  required_increment_from (b_new, news) (b_old, olds) fs = Ok inc ->
+  aff_at b_old fs iolds + inc == aff_at b_new fs inews.
+Proof.
+  intros b_old b_new olds news iolds inews fs inc Hl H. unfold required_increment_from in H. cbn [fst snd] in H.
+  destruct (Nat.eqb (length news) (length olds)) eqn:E1; cbn in H; [|discriminate].
+  destruct (Nat.eqb (length news) (length fs)) eqn:E2; cbn in H; [|discriminate].
+  apply Nat.eqb_eq in E1, E2.
+  rewrite (req_inc_loop_sound olds news iolds inews Hl fs (b_new - b_old) inc b_old); auto; [|lia].
+  apply aff_at_compat. ring.
+Qed.
